@@ -106,7 +106,7 @@ func H_C07_unknown(v *V) {
 	}
 	argv = append(argv, tail...)
 	rest, err := p.ParseArgs(argv)
-	v.ObserveStr("err", vErrString(err))
+	vObsErr(v, err)
 	switch policy {
 	case 0:
 		v.Reach("rejected")
